@@ -78,8 +78,11 @@ func lookupExternal(fn *ssa.Function, name string) externalFn {
 		}
 	}
 	if strings.HasPrefix(name, "(*sync/atomic.Pointer[") {
-		i := strings.Index(name, "]).")
+		i := strings.LastIndex(name, "]).")
 		m := name[i+3:]
+		if j := strings.IndexByte(m, '['); j >= 0 {
+			m = m[:j]
+		}
 		return atomicPointerMethods[m]
 	}
 	if strings.HasPrefix(name, "slices.Sort") || strings.HasPrefix(name, "slices.pdqsort") {
@@ -282,6 +285,11 @@ func timeNS(t value) value {
 }
 
 func (e *Engine) now() value {
+	if e.clock == nil && e.Params["CLOCK_CONCRETE"] == 1 {
+		// the harness declares time irrelevant to its obligations: a fixed instant, no forks on time
+		e.clock = int64(1) << 41
+		e.api = append(e.api, APIEvent{Kind: "clock0", Name: "t0", Bits: 64, terms: []string{bvconst(1<<41, 64)}})
+	}
 	if e.clock == nil {
 		t0 := e.fresh("t0", 64)
 		// 2^40 ns (~18 min) < t0 < 2^61
@@ -768,7 +776,7 @@ func init() {
 		items := E.pools[p]
 		n := len(items)
 		c := 0
-		if n > 0 {
+		if n > 0 && E.Params["POOL_NONDET"] == 1 {
 			c = E.envDecide(n + 1) // 0: most recently put (what a single-goroutine native run does) ... n: New()
 		}
 		if n > 0 && c < n {
